@@ -6,8 +6,10 @@ mod isolate;
 mod model;
 mod props2;
 mod props_crash;
+mod props_damage;
 mod props_db;
 mod props_search;
+mod props_ser;
 mod props_storage;
 mod query;
 mod val;
@@ -28,6 +30,8 @@ fn isolated(id: &str) -> Option<(&'static str, u64)> {
         "C02" => Some(("c02-crash", 120)),
         "C03" => Some(("c03-crash", 120)),
         "C04" => Some(("c04-storage", 60)),
+        "C07" => Some(("c07-damage", 30)),
+        "C21" => Some(("c21-deserialize", 30)),
         "C32" => Some(("c32-fault", 60)),
         _ => None,
     }
@@ -90,12 +94,16 @@ fn main() {
         "C02" => props_crash::c02(&mut ctx),
         "C03" => props_crash::c03(&mut ctx),
         "C32" => props_crash::c32(&mut ctx),
+        "C07" => props_damage::c07(&mut ctx),
         "C04" => props_storage::c04(&mut ctx),
         "C05" => props2::c05(&mut ctx),
         "C06" => props2::c06(&mut ctx),
         "C12" => props2::c12(&mut ctx),
         "C13" => props2::c13(&mut ctx),
         "C19" => props2::c19(&mut ctx),
+        "C20" => props_ser::c20(&mut ctx),
+        "C21" => props_ser::c21(&mut ctx),
+        "C22" => props_ser::c22(&mut ctx),
         "C08" => props_db::c08(&mut ctx),
         "C09" => props_db::c09(&mut ctx),
         "C10" => props_db::c10(&mut ctx),
@@ -120,12 +128,16 @@ fn replay_one(id: &str, path: &str) -> i32 {
         "C02" => props_crash::c02_replay(path),
         "C03" => props_crash::c03_replay(path),
         "C32" => props_crash::c32_replay(path),
+        "C07" => props_damage::c07_replay(path),
         "C04" => props_storage::c04_replay(path),
         "C05" => props2::c05_replay(path),
         "C06" => props2::c06_replay(path),
         "C12" => props2::c12_replay(path),
         "C13" => props2::c13_replay(path),
         "C19" => props2::c19_replay(path),
+        "C20" => props_ser::c20_replay(path),
+        "C21" => props_ser::c21_replay(path),
+        "C22" => props_ser::c22_replay(path),
         "C14" => props_search::c14_replay(path),
         "C15" => props_search::c15_replay(path),
         "C16" => props_search::c16_replay(path),
